@@ -79,15 +79,18 @@ CLAIMED = {
     technique="Coq invariant proof over executable model + differential correspondence (extracted OCaml vs in-process h2.c)",
     design="5/C06"),
  "C05": dict(
-    text="An RFC 9113 wire tracker written in Gallina (H2Legal.legal: HEADERS before DATA, END_STREAM once, nothing but RST/WU after it, payload <= peer "
-         "max frame size, SETTINGS/PING acknowledged, contiguous header blocks, nothing after an error GOAWAY, connection errors answered, complete "
-         "requests answered) is extracted and judges every frame h2.c emits for exhaustive (alphabet of 53 valid/invalid frames, length <= 2, 3 in "
-         "thorough) and random client frame sequences incl. every piece size 1..24; Coq theorems over the HTTP/2 model prove the clauses frame-size "
-         "bound, SETTINGS acked once, PING echoed once, connection error final, id order/parity and concurrency limit for every history",
-    note="PARTIAL proof: the one statement 'the model's whole trace is legal' is not proven, only the listed clauses; the model covers the GET/flow-control "
-         "regime (C06 correspondence), the tracker covers everything on the implementation side as a monitor; trusted: Coq kernel, extraction, harness "
-         "glue, tracker's reading of RFC 9113; TLS/ALPN paths not built",
-    technique="Coq-extracted RFC tracker as runtime monitor over exhaustive/random frame sequences + Coq proofs of tracker clauses over the executable HTTP/2 model",
+    text="Coq theorem every_emitted_frame_is_legal (H2/H2Trace.v): for every history of client events (SETTINGS, SETTINGS ACK, HEADERS of a complete "
+         "GET, WINDOW_UPDATE, PING; any number, any order, any values) every frame the executable HTTP/2 model emits is accepted by an RFC 9113 wire "
+         "tracker written in Gallina (H2Legal: HEADERS before DATA, END_STREAM once, nothing after it, payload <= peer max frame size, SETTINGS/PING "
+         "acknowledged exactly when owed, nothing after an error GOAWAY, RST_STREAM/GOAWAY only naming opened streams), proved by a simulation "
+         "invariant between the model's and the tracker's state; nothing_is_owed_at_the_end for live connections.  The model is tied to h2.c by "
+         "running both on the same frame sequences: the model's trace must equal the implementation's frame for frame (trace correspondence, "
+         "2500+ histories per run) and the extracted tracker also judges every frame h2.c emits for exhaustive (alphabet of 53 valid/invalid frames, "
+         "length <= 2, 3 in thorough) and random client frame sequences incl. every piece size 1..24",
+    note="outside the model's regime (uploads, invalid frames, CONTINUATION, RST_STREAM from the client, header block lengths, the server preface) the tracker "
+         "is a monitor over the implementation's frames, not a theorem; trusted: Coq kernel, extraction, harness glue, tracker's reading of RFC 9113; "
+         "TLS/ALPN paths not built",
+    technique="Coq proof (simulation invariant: every model trace is accepted by the RFC 9113 tracker) + trace correspondence model vs h2.c + the extracted tracker as monitor over exhaustive/random frame sequences",
     design="5/C05"),
  "C07": dict(
     text="Coq proofs over an RFC 7541 specification (decoder, encoder family, Huffman trie, dynamic table) built on the tables regenerated from "
